@@ -25,6 +25,8 @@ def run_harness(hexe, seed, n, scenario, out):
         args[2] = "-n=30"
     elif scenario:
         args.append("-scenario=" + scenario)
+        if scenario == "tamperfull":
+            args[2] = "-n=2"
     rc, log, dt = L.run(args, timeout=300)
     return rc, log
 
@@ -55,6 +57,8 @@ def main(prop, prop_v, tier, seed, replay, scenarios, own_prefixes, known_prefix
             k = 0
             for rep in range(3 if tier == "quick" else 6):
                 for sc in kinds:
+                    if sc == "tamperfull" and rep > 0 and tier == "quick":
+                        continue   # expensive probe (1000+ submissions per history): once per quick run
                     jobs.append((seed * 1000 + k, sc)); k += 1
             if tier == "thorough" and prop in ("C01", "C02", "C03", "C04"):
                 # systematic crash placement: every crash position of a round x every crash position
